@@ -2,4 +2,5 @@
 void harness(void) {
   uint64_t x;
   highest_one(x);
+  VERIF_REACHABLE();
 }
